@@ -39,6 +39,21 @@ CLAIMED = {
               "is_weakly_oriented, is_oriented) is NOT decided."),
         note=("Representations are built directly from a symbolic array constrained by the validity predicate; one "
               "harness proves new+set establish/preserve that predicate.")),
+    "C04": dict(
+        design_ref="DESIGN.md §4 C04",
+        text=("Bounded model checking of the DSet trait's provided methods morphism / automorphisms / degrees_match_in "
+              "(the real generic code) instantiated for an array-backed implementor defined in the harness: for EVERY "
+              "connected complete symbol of the shape (every tuple of involutions, every degree function <= 3 constant "
+              "on 2-orbits) and EVERY base image (out-of-range ones included), Some(map) is a morphism with that base "
+              "image (commutes with every operation, preserves every degree) and None means no morphism exists "
+              "(decided against a fully symbolic candidate map); automorphisms() lists exactly the automorphisms, "
+              "each once. 2..4 chambers, dimension 2, source != target up to 2x2 (quick); 5 chambers, dimension 3, "
+              "3x3 (thorough). PARTIAL: fold / is_minimal / minimal_image (union-find over a HashMap index) and the "
+              "statement about covers are NOT decided."),
+        note=("Decided: the automorphism / morphism-search sentence of C04 for one instantiation of the generic code "
+              "(ArrSym<N, D1>: size/dim/op/m read fixed arrays). Not decided: minimal image, minimality test, "
+              "uniqueness of the smallest quotient, covers; other implementors of DSet only through the generic code "
+              "they share.")),
     "C05": dict(
         design_ref="DESIGN.md §4 C05",
         text=("Bounded model checking of derived::cover — the one construction through which every cover "
@@ -52,6 +67,29 @@ CLAIMED = {
         note=("Decided: the covering construction given an admissible sheet map. Not decided: everything specific "
               "to oriented_cover / covers / subgroup_cover / finite_universal_cover / cover_for_table beyond "
               "their common call of cover().")),
+    "C06": dict(
+        design_ref="DESIGN.md §4 C06",
+        engine="gen6",
+        quick_cmd="python3 engine/gen6.py check --tier quick",
+        thorough_cmd="python3 engine/gen6.py check --tier thorough",
+        replay="python3 engine/gen6.py replay {path}",
+        technique=("the generator has no data input (its parameters are the bound), so each configuration is executed "
+                   "once from the current tree; the universally quantified part — over ALL D-sets of each size — is "
+                   "decided by SMT (z3 QF_BV, every completeness verdict re-run with cvc5): unsat(exists a valid "
+                   "connected commuting D-set isomorphic to no output), unsat(exists an isomorphism between two "
+                   "outputs); sat models are replayed natively against the real generator"),
+        text=("For every configuration (dim, max_size) of the tier — (1,5), (2,5), (3,4) quick; (1,7), (2,6), (3,5), "
+              "(4,4) thorough — the real DSets generator built from the current tree is run and its output list is "
+              "turned into constants; an SMT solver then decides, over the whole universe of D-sets of each size "
+              "<= max_size (symbolic tuples of involutions: complete, connected, non-adjacent operations commute), "
+              "that none is missing (completeness) and, over all symbolic bijections, that no two outputs are "
+              "isomorphic (irredundancy). Soundness of each output (complete, connected, commuting, size bound, "
+              "numbered consecutively) is a ground check of the constants."),
+        note=("The implementation side has no symbolic variable because the generator has no input beyond the bound; "
+              "nothing of the generator is modelled. The for-all of the property (every D-set of the universe, every "
+              "bijection) is the solver's. Trusted base: rustc (dev profile), z3 4.8.12 / cvc5 1.0, the QF_BV "
+              "encoding of 'valid connected commuting D-set' and 'isomorphism' in engine/gen6.py, and the native "
+              "replay driver native/verif_c06.rs. Outside the claim: larger sizes / dimensions.")),
     "C10": dict(
         design_ref="DESIGN.md §4 C10",
         text=("Bounded model checking of every FreeWord operation (new/from/empty, six product forms, *=, inverse, "
@@ -95,8 +133,6 @@ CLAIMED = {
 
 NOT_APPLICABLE = {
     "C03": "canonical form runs through Traversal (HashSet + BTreeMap + VecDeque); symbolic execution does not finish for 2 chambers",
-    "C04": "fold/is_minimal/minimal_image need the HashMap-indexed union-find; automorphisms() ran out of 26 GB at 2 chambers",
-    "C06": "running the back-tracking generator inside CBMC did not leave symbolic execution in 25 min for (dim 1, size 2)",
     "C07": "generator filter builds orbifold symbols as Strings (fmt), needs automorphisms and a back-tracking stack",
     "C08": "curvature/orbifold_symbol go through Traversal, oriented_cover, HashSet and String",
     "C09": "Boundary is a HashMap, words live in BTreeMap/BTreeSet; oracle is a group isomorphism, not a bounded first-order statement",
@@ -118,15 +154,15 @@ def main():
         c = CLAIMED[pid]
         checks.append({
             "property_id": pid,
-            "quick_cmd": "python3 engine/kc.py check %s --tier quick" % pid,
-            "thorough_cmd": "python3 engine/kc.py check %s --tier thorough" % pid,
+            "quick_cmd": c.get("quick_cmd", "python3 engine/kc.py check %s --tier quick" % pid),
+            "thorough_cmd": c.get("thorough_cmd", "python3 engine/kc.py check %s --tier thorough" % pid),
             "evidence_file": "evidence/%s.json" % pid,
-            "replay_cmd_template": "python3 engine/kc.py replay {path}",
-            "engine": "kc",
+            "replay_cmd_template": c.get("replay", "python3 engine/kc.py replay {path}"),
+            "engine": c.get("engine", "kc"),
             "level_claimed": {"category": "model_checking", "text": c["text"],
                               "design_ref": c["design_ref"]},
-            "level_note": c["note"] + LEVEL_NOTE_COMMON,
-            "technique": TECH,
+            "level_note": c["note"] + ("" if c.get("engine") else LEVEL_NOTE_COMMON),
+            "technique": c.get("technique", TECH),
         })
     na = dict(NOT_APPLICABLE)
     na.update(PENDING)
@@ -147,10 +183,16 @@ def main():
         "engines": [{
             "name": "kc",
             "path": "engine/kc.py",
-            "serves_properties": sorted(CLAIMED),
+            "serves_properties": sorted(k for k in CLAIMED if not CLAIMED[k].get("engine")),
             "kind_free_text": "Kani 0.68 code generation of the real crate + own goto-cc/goto-instrument link "
                               "against a fixed-block allocator model + CBMC 6.11 (CaDiCaL / z3), witness "
                               "extraction and native replay",
+        }, {
+            "name": "gen6",
+            "path": "engine/gen6.py",
+            "serves_properties": ["C06"],
+            "kind_free_text": "native run of the input-free generator from the current tree + SMT-LIB (QF_BV) queries over "
+                              "the universe of D-sets and over bijections, z3 with cvc5 cross-check, native replay",
         }],
         "checks": checks,
         "not_applicable": [{"property_id": k, "reason": na[k]} for k in sorted(na)],
